@@ -6,6 +6,7 @@ import TephraModel.Scan
 import TephraModel.LexOps
 import TephraModel.Spec.Raw
 import TephraModel.Spec.Canon
+import TephraModel.LexDisplay
 
 namespace Tephra.Fam.Lex
 open Tephra Tephra.Wire
@@ -120,12 +121,18 @@ def fingerprint (lx : Lx) : String :=
 def showLE : LineEnding → String
   | .lf => "lf" | .cr => "cr" | .crlf => "crlf"
 
-def stateObs (lx : Lx) : String :=
+/-- `format!("{}", lexer)` in the model: the harness scanners' `Debug` is `S<state>`; the
+observation carries a fingerprint `<chars>:<checksum>` of the text (`panic` if formatting panics) -/
+def displayObs (t : Text) (lx : Lx) : String :=
+  LexDisplay.showRendered (LexDisplay.renderLexer (LexDisplay.lexerSource t lx) s!"S{lx.scanner}" lx)
+
+def stateObs (t : Text) (lx : Lx) : String :=
   "/".intercalate [showSpan lx.tokenSpan, showSpan lx.parseSpan, showPos lx.cursorPos,
     showOptSpan lx.peekTokenSpan, fingerprint lx,
-    -- the remaining read-only accessors: peek_parse_span, peek_cursor_pos, is_empty, line_ending, tab_width
+    -- the remaining read-only accessors: peek_parse_span, peek_cursor_pos, is_empty, line_ending, tab_width;
+    -- last: the lexer's `Display` text (fingerprint)
     ";".intercalate [showOptSpan lx.peekParseSpan, showOptPos lx.peekCursorPos, showBool lx.isEmpty,
-      showLE lx.metrics.le, toString lx.metrics.tab]]
+      showLE lx.metrics.le, toString lx.metrics.tab, displayObs t lx]]
 
 def showOut : LexOps.Out Tok → String
   | .tok t => showOptTok t
@@ -138,7 +145,22 @@ def project (ops : List Op) : List Op := LexOps.project ops
 def histModel (cfg : ScanCfg) (t : Text) (m : Metrics) (ops : List Op) : String :=
   let E := lexEnv cfg t
   " ".intercalate ((LexOps.exec E [Lexer.new 1 m (bytes t)] ops).map fun (o, lx) =>
-    showOut o ++ "@" ++ stateObs lx)
+    showOut o ++ "@" ++ stateObs t lx)
+
+/-- Decoding aid (family `lexdisp`, the input fields of `lexops`; the harness side is its `replay`
+mode): the whole `Display` text of the lexer after every op, as dot-separated code points. -/
+def runDisp (fields : List String) : String × String :=
+  match fields with
+  | [t, le, tab, sc, opsS, impl] =>
+    let t := parseText t
+    let m : Metrics := ⟨parseLE le, nat! tab⟩
+    let E := lexEnv (ScanCfg.ofId (nat! sc)) t
+    let mo := " ".intercalate ((LexOps.exec E [Lexer.new 1 m (bytes t)] (parseOps opsS)).map fun (_, lx) =>
+      match LexDisplay.renderLexer (LexDisplay.lexerSource t lx) s!"S{lx.scanner}" lx with
+      | .ok s => if s.isEmpty then "-" else ".".intercalate (s.toList.map fun ch => toString ch.toNat)
+      | .panic => "panic")
+    (mo, if mo == impl then "ok" else "FAIL the Display text of the lexer differs")
+  | _ => ("?", "FAIL bad case line")
 
 /-! Oracle: evaluated on the implementation's observation strings. -/
 
@@ -281,7 +303,9 @@ def runOps (fields : List String) : String × String :=
               ok && go depth curNow filteredNow ops os
         go 0 "0,0,0" false ops fobs
       let r4 := if tilingOK then [] else ["C04: an unfiltered lexer skipped text: the delivered token does not start at the cursor"]
-      let reasons := r1 ++ r2 ++ r3 ++ r4
+      -- C01: the lexer's `Display` was formatted after every op (last `;` item of a state observation)
+      let r5 := if (impl.splitOn ";panic").length > 1 then ["C01: formatting the lexer (Display) panicked"] else []
+      let reasons := r1 ++ r2 ++ r3 ++ r4 ++ r5
       (mo, if reasons.isEmpty then "ok" else "FAIL " ++ "; ".intercalate reasons)
     | _ => (mo, "FAIL unparsable observation")
   | _ => ("?", "FAIL bad case line")
